@@ -2,6 +2,7 @@ package main
 
 import (
 	"fmt"
+	"go/constant"
 	"go/token"
 	"go/types"
 	"strings"
@@ -152,8 +153,21 @@ func runC20(c *Ctx) {
 		readCall, _ = ci.(*ssa.Call)
 	}
 	isContents := func(v ssa.Value) bool {
-		cc, _, ok := CallResult(v)
-		return ok && CalleeName(cc.Common()) == "strings.TrimSpace"
+		// the normalised text, or a variable holding nothing but it (and the "" of an error path)
+		some := false
+		for _, l := range p.LeavesNoFields(v, func(x ssa.Value) FlowAct {
+			if _, _, ok := CallResult(x); ok {
+				return Stop
+			}
+			return Descend
+		}) {
+			if cc, _, ok := CallResult(l); ok && CalleeName(cc.Common()) == "strings.TrimSpace" {
+				some = true
+			} else if s, isC := ConstString(l); !isC || s != "" {
+				return false
+			}
+		}
+		return some
 	}
 	allowed := PassEdges(mc, func(cond ssa.Value) (bool, bool) {
 		op, x, y, ok := BinCmp(cond)
@@ -179,6 +193,13 @@ func runC20(c *Ctx) {
 			if isContents(x) && (fieldContents(y) || elemUp(y)) || isContents(y) && (fieldContents(x) || elemUp(x)) {
 				return true, true
 			}
+			// contents == ""
+			if sv, isS := ConstString(y); isS && sv == "" && isContents(x) {
+				return true, true
+			}
+			if sv, isS := ConstString(x); isS && sv == "" && isContents(y) {
+				return true, true
+			}
 			// len(contents) == 0
 			if k, isK := ConstInt(y); isK && k == 0 {
 				if lc, ok := x.(*ssa.Call); ok {
@@ -191,20 +212,53 @@ func runC20(c *Ctx) {
 		return false, false
 	})
 	nTrue := 0
-	for _, ret := range ReturnsOf(mc) {
-		comps := ResultComponents(ret)
-		bv, isC := ConstBool(comps[0])
-		if !isC {
-			c.Undecided("R1", "matchesCurrent:verdict", p.InstrPos(ret), "non-constant recognition result")
-			continue
+	var countTrue func(v ssa.Value, d int)
+	countTrue = func(v ssa.Value, d int) {
+		if ph, ok := v.(*ssa.Phi); ok && d < 5 {
+			for _, e := range ph.Edges {
+				countTrue(e, d+1)
+			}
+			return
 		}
-		if !bv {
-			continue
+		if u, ok := v.(*ssa.UnOp); ok && u.Op == token.MUL {
+			for _, dv := range ReachingDefs(u) {
+				if bv, isC := ConstBool(dv); isC && bv {
+					nTrue++
+				}
+			}
+			return
 		}
-		nTrue++
-		g, path := Guarded(mc.Blocks[0], ret, allowed, nil)
-		c.Check(g && nonVacuous(allowed), "R1", "matchesCurrent:recognised-only-if-ours", p.InstrPos(ret), "a hook counts as ours only if it equals the current script, is empty, or equals a historical script", "a hook can be recognised as generated by Git LFS through a condition other than equality with the current/historical scripts or emptiness (e.g. a looser notion of `blank`): a user's hook would be overwritten or deleted: "+path)
+		if bv, isC := ConstBool(v); isC && bv {
+			nTrue++
+		}
 	}
+	for _, ret := range ReturnsOf(mc) {
+		countTrue(ResultComponents(ret)[0], 0)
+	}
+	// on every path that crosses none of the three accepted comparisons the verdict is the constant false
+	badAt, badWhy := "", ""
+	before := ExploreOverflow
+	ExploreOverflow = false
+	ExploreX(mc.Blocks[0], nil, nil, nil, EdgeSet(allowed), nil, func(in ssa.Instruction, st PState) bool {
+		ret, ok := in.(*ssa.Return)
+		if !ok {
+			return true
+		}
+		cv, isC := EvalConst(ResultComponents(ret)[0], st)
+		if !isC || cv.Value == nil || cv.Value.Kind() != constant.Bool {
+			badAt, badWhy = p.InstrPos(ret), "the verdict is not a constant on a path that made none of the accepted comparisons"
+		} else if constant.BoolVal(cv.Value) {
+			badAt, badWhy = p.InstrPos(ret), "the verdict is true on a path that made none of the accepted comparisons"
+		}
+		return false
+	})
+	over := ExploreOverflow
+	ExploreOverflow = before || over
+	if badAt == "" {
+		badAt = p.Pos(mc.Pos())
+	}
+	c.Check(badWhy == "" && !over && nonVacuous(allowed), "R1", "matchesCurrent:recognised-only-if-ours", badAt, "a hook counts as ours only if it equals the current script, is empty, or equals a historical script",
+		"a hook file can be recognised as generated by git-lfs without being compared with the current or a historical script ("+badWhy+"): install/update overwrite it and uninstall deletes it")
 	c.AtLeast("R1", "positive recognitions in matchesCurrent", nTrue, 2)
 	// ---- R2 whole file ----------------------------------------------------------------------------
 	if readCall == nil {
